@@ -456,6 +456,7 @@ def run(chk):
     _reset_rule(chk, prog, tu)
     _emits_rule(chk, prog, tu)
     _accumfast_rule(chk, fn)
+    _grammarcache_rule(chk, prog, tu)
     cfn = prog.need_func("peg_compile1", tu)
     chk.analysed(cfn)
     _restore_rule(chk, cfn, "C12-SCOPE", "grammar",
@@ -503,3 +504,42 @@ def _accumfast_rule(chk, fn):
                           "result is the text when the grammar has no back-reference anywhere and the value's printed form when it has" % (
                               cases[0], val.text()[:40]))
     chk.floor(rule, 1, n)
+
+
+def _grammarcache_rule(chk, prog, tu):
+    """peg_compile1 caches `source form -> compiled rule` so that a form compiled twice yields one rule.  A nested
+    grammar (a struct or a table with :main) opens a new scope whose rule names shadow the enclosing ones, so what it
+    compiles to depends on where it stands; such forms must stay out of the cache - all kinds of them, not just structs."""
+    rule = "C12-GRAMMARCACHE"
+    chk.rule(rule, "every kind of source form that opens a grammar scope (struct, table) is kept out of the PEG compiler's rule cache")
+    fn = prog.need_func("peg_compile1", tu)
+    sw = [x for x in fn.nodes if x.k == "switch" and any("janet_type" in y.macro_names() or (y.k == "call" and y.callee == "janet_type") for y in x.kids[0].walk())]
+    if not sw:
+        raise AnalysisBroken("peg_compile1: switch on the source form's type not found")
+    from jv.util import case_map
+    m = case_map(sw[-1])
+    scoped = set()
+    for x in sw[-1].kids[1].walk():
+        if x.k == "asg" and any(y.k == "mem" and y.field == "grammar" and y.rec == "Builder" for y in x.kids[0].walk()) and x.id in m:
+            scoped.update(m[x.id])
+    scoped = set(t for t in scoped if t.startswith("JANET_"))
+    if len(scoped) < 2:
+        raise AnalysisBroken("peg_compile1: arms that open a grammar scope not recognised (%s)" % sorted(scoped))
+    puts = [c for c in fn.calls("janet_table_put") if len(c.args) == 3 and any(is_ref(y, "rule") for y in c.args[2].walk())]
+    if not puts:
+        raise AnalysisBroken("peg_compile1: cache insertion not found")
+    excluded = set()
+    for a in puts[0].ancestors():
+        if a.k == "if":
+            for y in a.kids[0].walk():
+                if y.k == "ref" and y.name.startswith("JANET_") and y.d.get("d") == "enum":
+                    excluded.add(y.name)
+    for t in sorted(scoped):
+        chk.instance(rule)
+        if t in excluded:
+            chk.ok(rule, "%s forms open a scope and are excluded from the rule cache" % t)
+        else:
+            chk.violation(rule, "peg.c", "peg_compile1", "cached:%s" % t, puts[0].loc,
+                          "a %s source form opens its own grammar scope but is entered into the rule cache (`%s`): used a second time in "
+                          "another scope, the rule compiled for the first scope is reused and its names resolve in the wrong grammar" % (
+                              t, puts[0].text()[:50]))
